@@ -93,14 +93,15 @@ type Val struct {
 
 // E1Options parametrises the environment.
 type E1Options struct {
-	Seed      int64
-	Powers    []int64  // consensus power per validator (tokens = power * 10^6)
-	Chains    []string // remote chain reference ids, all activated
-	Authority string   // skyway governance authority ("" like the repository's test env, or an address)
-	NoActive  bool     // leave chains inactive
-	Paloma    skywaytypes.PalomaKeeper
-	TokenFact skywaytypes.TokenFactoryKeeper
-	ValAddrs  [][]byte // optional explicit operator address bytes per validator (C12 patterns)
+	Seed       int64
+	Powers     []int64  // consensus power per validator (tokens = power * 10^6)
+	ExtraStake []int64  // optional: additional raw tokens staked by validator i on top of power * 10^6 (boundary cases)
+	Chains     []string // remote chain reference ids, all activated
+	Authority  string   // skyway governance authority ("" like the repository's test env, or an address)
+	NoActive   bool     // leave chains inactive
+	Paloma     skywaytypes.PalomaKeeper
+	TokenFact  skywaytypes.TokenFactoryKeeper
+	ValAddrs   [][]byte // optional explicit operator address bytes per validator (C12 patterns)
 	// NoChainInfo[i] lists chains on which validator i gets NO external chain info at set-up (C10).
 	NoChainInfo map[int][]string
 	// MaxValidators overrides the staking parameter (default 20).
@@ -305,6 +306,9 @@ func (e *E1) addValidators() {
 		acc := e.Account.NewAccount(ctx, authtypes.NewBaseAccount(v.Acc, accPriv.PubKey(), uint64(i), 0))
 		e.Account.SetAccount(ctx, acc)
 		tokens := sdk.TokensFromConsensusPower(p, sdk.DefaultPowerReduction)
+		if i < len(o.ExtraStake) {
+			tokens = tokens.AddRaw(o.ExtraStake[i])
+		}
 		e.Fund(ctx, v.Acc, sdk.NewCoins(sdk.NewCoin(BondDenom, tokens.MulRaw(2))))
 		commission := stakingtypes.NewCommissionRates(math.LegacyNewDecWithPrec(1, 1), math.LegacyNewDecWithPrec(2, 1), math.LegacyNewDecWithPrec(5, 3))
 		msg, err := stakingtypes.NewMsgCreateValidator(v.Val.String(), cons.PubKey(), sdk.NewCoin(BondDenom, tokens),
